@@ -7,6 +7,6 @@ package registry
 // different maps.
 //@ func New
 //@   modifies nothing
-//@   ensures result != nil && fresh(result) && result.accounts != nil && fresh(result.accounts) && result.accounts.index != nil && result.accounts.swaps != nil
+//@   ensures result != nil && fresh(result) && wfAccounts(result.accounts) && fresh(result.accounts)
 //@   ensures wfCommodities(result.commodities) && fresh(result.commodities) && len(result.commodities.index) == 0
 //@   ensures result.accounts.index != result.commodities.index
